@@ -63,6 +63,7 @@ type VC struct {
 	lastSk    map[string][]skolem
 	epochSeq  int
 	inputs    []ModelVar
+	bseqExt   bool
 }
 
 func newVC(eng *Engine, mode Mode, fnName string) *VC {
